@@ -1,7 +1,7 @@
 (* C09 — Operators follow Go's precedence, associativity and arithmetic. Theorems only. *)
 From Tpl Require Import Exp.Eval Proofs.ParseSpec Proofs.ParseRoundtrip Proofs.TernaryAssoc Proofs.IntOps Proofs.GoPrec Proofs.FactsAgree.
 From Tpl Require Proofs.FloatSpec.
-From Tpl Require Exp.FloatFmt Proofs.FloatFmtProps.
+From Tpl Require Exp.FloatFmt Proofs.FloatFmtProps Proofs.FloatFmtRead.
 From Flocq Require IEEE754.Bits.
 From Coq Require Reals.
 Open Scope N_scope.
@@ -125,8 +125,10 @@ Print Assumptions float_literal_correctly_rounded.
 
 (* %v of a float64 (a float concatenated to a string): the digits the formatter model prints always denote a decimal
    inside the rounding interval it computed for the float (strictly, or on a boundary of an even mantissa), and no
-   shorter decimal was inside — "shortest that reads back".  That the interval IS the float's rounding interval and that
-   Go prints the same digits is validated by the fmtfloat stream, not proved. *)
+   shorter decimal was inside — "shortest that reads back"; and every decimal inside that interval READS BACK as the same
+   float: the model's correctly rounded decimal-literal reader (float_literal_correctly_rounded above) maps it to exactly
+   the bit pattern that was formatted (positive finite non-zero floats; the sign is printed separately).  That Go prints
+   the same digits, and the text layout (exponent form, padding), is validated by the fmtfloat stream, not proved. *)
 Theorem fmt_shortest_inside : forall fuel f p n c k,
   FloatFmt.shortest fuel f p n = Some (c, k) -> FloatFmt.inside f c k = true.
 Proof. exact FloatFmtProps.shortest_inside. Qed.
@@ -138,7 +140,20 @@ Theorem fmt_shortest_first : forall fuel f p n c k, FloatFmt.shortest fuel f p n
                 else (FloatFmt.fd_x f * FloatFmt.pow10 (- km) / FloatFmt.fd_den f)%Z in
       FloatFmt.inside f lo km = false /\ FloatFmt.inside f (lo + 1)%Z km = false.
 Proof. exact FloatFmtProps.shortest_first. Qed.
+Theorem fmt_inside_reads_back : forall bits ef mf c k,
+  (0 <= bits < 2 ^ 63)%Z ->
+  FloatFmt.decode bits = (0, ef, mf)%Z -> (ef < 2047)%Z -> (0 < ef \/ 0 < mf)%Z ->
+  FloatFmt.inside (FloatFmt.mk_fdec ef mf) c k = true ->
+  f_of_dec c k = bits.
+Proof. exact FloatFmtRead.inside_reads_back. Qed.
+Theorem fmt_shortest_reads_back : forall bits ef mf fuel p n c k,
+  (0 <= bits < 2 ^ 63)%Z ->
+  FloatFmt.decode bits = (0, ef, mf)%Z -> (ef < 2047)%Z -> (0 < ef \/ 0 < mf)%Z ->
+  FloatFmt.shortest fuel (FloatFmt.mk_fdec ef mf) p n = Some (c, k) ->
+  f_of_dec c k = bits.
+Proof. exact FloatFmtRead.shortest_reads_back. Qed.
 Print Assumptions fmt_shortest_inside.
+Print Assumptions fmt_shortest_reads_back.
 
 (* Non-vacuity: 1 + 2 * 3 < 8 && !x  is well-formed without any parenthesis and round-trips *)
 Close Scope Z_scope.
